@@ -78,26 +78,37 @@ theorem tokenizer_reuse_eq_fresh (dirty : State) (hd : ∀ f, f ∉ tokenizerWri
   exact reuse_eq_fresh tokenizerInit tokenizerReset tokenizerWritten [] tokenizer_reset_eq_init.1 tokenizer_reset_eq_init.2.1
     dirty hd f (by simp)
 
-/-- Generator (PARTIAL): `generate()` re-assigns only `unsupported_messages`.  The other fields generation writes are
-    `identify` and `_quote_json_path_key_using_brackets` (toggled and restored by the writer, on the normal path only) and
-    the alias counter `_next_name`, which nothing restores — see the counter-example below. -/
+/-- Generator: `generate()` re-assigns `unsupported_messages` and the alias counter `_next_name` to `__init__`'s values.
+    The only other fields generation writes are `identify` (`no_identify`) and `_quote_json_path_key_using_brackets`
+    (BigQuery's JSON path helper): both are toggled and put back by the writer itself, on the normal path only (no
+    `finally`) — hence PARTIAL: the statement below is for every field except those two. -/
 theorem generator_reset_eq_init_partial :
     resetRepeatsInit generatorInit generatorReset = true ∧
-    writesCovered generatorReset generatorWritten ["identify", "_quote_json_path_key_using_brackets", "_next_name"] = true := by
+    writesCovered generatorReset generatorWritten ["identify", "_quote_json_path_key_using_brackets"] = true := by
   decide +kernel
 
 theorem generator_reuse_eq_fresh_partial (dirty : State) (hd : ∀ f, f ∉ generatorWritten → dirty f = fresh generatorInit f) :
-    ∀ f, f ∉ ["identify", "_quote_json_path_key_using_brackets", "_next_name"] →
+    ∀ f, f ∉ ["identify", "_quote_json_path_key_using_brackets"] →
       setAll generatorReset dirty f = fresh generatorInit f :=
   reuse_eq_fresh generatorInit generatorReset generatorWritten _ generator_reset_eq_init_partial.1
     generator_reset_eq_init_partial.2 dirty hd
 
-/-- **counter-example to the full statement on the current source**: a Generator whose alias counter has advanced keeps it
-    across `generate()` — the reset block leaves `_next_name` as the earlier call left it, a new Generator starts at
-    `name_sequence('_t')`.  Real-code instance: `g.generate(parse_one("SELECT * FROM t AS (a, b)"))` twice gives `_t0`, then `_t1`
-    (known finding / proposed fix: re-create the sequence in `generate`). -/
-theorem generator_next_name_counterexample :
-    setAll generatorReset (update (fresh generatorInit) "_next_name" "<advanced>") "_next_name" = some "<advanced>" ∧
-    fresh generatorInit "_next_name" = some "name_sequence('_t')" := by decide +kernel
+/-- in particular the alias counter: whatever an earlier call left in `_next_name`, `generate()` starts from the
+    constructor's `name_sequence('_t')` (current source; this is the repaired behaviour) -/
+theorem generator_next_name_restarts (dirty : State) :
+    setAll generatorReset dirty "_next_name" = fresh generatorInit "_next_name" := by
+  rw [setAll_eq, fresh, setAll_eq]
+  have h1 : lastVal generatorReset "_next_name" = some "name_sequence('_t')" := by decide +kernel
+  have h2 : lastVal generatorInit "_next_name" = some "name_sequence('_t')" := by decide +kernel
+  rw [h1, h2]
+
+/-- **why that reset is needed** (witness on an explicit snapshot of the pre-repair source, not on the regenerated lists):
+    with a reset block that assigns only `unsupported_messages`, an advanced alias counter survives `generate()` while a new
+    Generator starts at `name_sequence('_t')`.  Real-code instance before the repair:
+    `g.generate(parse_one("SELECT * FROM t AS (a, b)"))` twice gave `_t0`, then `_t1`. -/
+theorem generator_next_name_snapshot_witness :
+    setAll preFixGeneratorReset (update (fresh preFixGeneratorInit) "_next_name" "<advanced>") "_next_name" = some "<advanced>" ∧
+    fresh preFixGeneratorInit "_next_name" = some "name_sequence('_t')" ∧
+    writesCovered preFixGeneratorReset ["_next_name", "unsupported_messages"] [] = false := by decide +kernel
 
 end SqlglotModel.Properties.C15
